@@ -109,7 +109,7 @@ Definition c11_spec (pair : sx) : sx :=
       let final := sx_nth imp 1 in
       let closed_ins := map (fun o => SR (fst o) (snd o)) (dec_outs closed) in
       all_repeated closed && all_repeated final &&
-      (if same_kind st1 st2 then reagg_holds (dec_outs closed) (dec_outs final)
+      (if same_kind st1 st2 then reagg_holds (match st1 with SortMerge => true | _ => false end) (dec_outs closed) (dec_outs final)
        else holds_for st2 closed_ins final)
   | _ => holds_for (dec_strategy (sx_arg x 0)) (spec_ins (flat_map dec_sources (sx_list (sx_arg x 1)))) imp
   end.
